@@ -264,6 +264,55 @@ func c11Write(c *hx.Ctx, api, dir string, d c11Def, vname string, m efivar.Marsh
 	c.Nontrivial([]byte(api), []byte(dir), []byte(d.name), refBE(d.guid), []byte{byte(d.attrs)}, []byte(vname))
 }
 
+// c11AfterFailure: a write that fails (error, short count, close error) followed by a healthy write
+// of another variable through the same FSWrapper; the second write's trace must be the contract's.
+func c11AfterFailure(c *hx.Ctx, at uint32, enc []byte) {
+	for _, kind := range []string{"err@f.Write", "short@f.Write", "err@f.Close"} {
+		rec := recfs.New()
+		failing := true
+		rec.Fault = func(k int, op string) string {
+			if failing && "err@"+op == kind {
+				return "err"
+			}
+			if failing && "short@"+op == kind {
+				return "short"
+			}
+			return ""
+		}
+		fw := fswrapper.NewMemoryWrapper()
+		fw.SetFS(rec)
+		g := unwire(ownerA)
+		pn := hx.Try(func() {
+			fw.WriteEfivarsWithGuid("First", attributes.Attributes(at), enc, g)
+			failing = false
+			rec.Events = nil
+			second := fill(9, 0x42)
+			err := fw.WriteEfivarsWithGuid("Second", attributes.Attributes(7), second, g)
+			writes := 0
+			okBuf := false
+			for _, e := range rec.Events {
+				if e.Op == "f.Write" {
+					writes++
+					okBuf = bytes.Equal(e.Data, append([]byte{7, 0, 0, 0}, second...))
+				}
+			}
+			if err != nil || writes != 1 || !okBuf {
+				c.Outcome("violation")
+				var tr []string
+				for _, e := range rec.Events {
+					tr = append(tr, e.String())
+				}
+				c.Violation("C11 write after a failed write on the same object: buffer is not attributes || encoded value", map[string]any{"failed_write": kind, "trace": tr, "error": fmt.Sprint(err)})
+			} else {
+				c.Outcome("write-after-failure-ok")
+			}
+		})
+		if pn != nil {
+			c.Violation("C11 write after a failed write ends in "+pn.String(), map[string]any{"failed_write": kind})
+		}
+	}
+}
+
 func c11Read(c *hx.Ctx, kind string, file []byte, present bool, stored, required uint32) {
 	if !c.Next() {
 		return
@@ -447,6 +496,10 @@ func c11Run(c *hx.Ctx, tier, unit string) {
 					default:
 						c.Outcome("short-write-ok")
 						c.Nontrivial([]byte(api), []byte{byte(at)}, []byte(v.name))
+					}
+					// a later write through the SAME wrapper object must not be affected by the failed one
+					if api == "FSWrapper.WriteEfivarsWithGuid" && pn == nil {
+						c11AfterFailure(c, at, v.enc)
 					}
 				}
 			}
